@@ -16,6 +16,7 @@ RULES = [
     (r'== \(void \*\) 1\b|!= \(void \*\) 1\b', 'outside: NULL-argument / NULL-member guard; the listed properties never pass NULL objects'),
 ]
 OLD_RULES = [
+    (r'pthread_\w+_destroy \(', 'outside: result test of a destroy call whose failure branch only prints a message'),
     (r'p_sys_close \(fd\) != 0|munmap \(.*== -1|shm_unlink \(.*== -1|fstat \(.*== -1|ftruncate \(.*== -1|sem_close \(.*== -1', 'outside: result test of a system call whose failure branch only prints a warning / is not entered by the generated histories (C18/C20 enter the failing ones they can provoke)'),
     (r'^shm->(addr|sem|map_size|shm_created)\s*=', 'equivalent: field reset in pp_shm_clean_handle right before the structure is freed or re-initialised'),
     (r'== EINTR\)$', 'other-property(C19): EINTR retry loop of shm_open / sem_open; C19 plans EINTR at these calls (a loop that never ends is now reported by the ipcx CPU-burn oracle)'),
